@@ -17,13 +17,16 @@ BR1 = dict(fthr=1, fcap=1, frate=0, fexec=0, period=0, sthr=0, scap=0, delay=100
 def cb(id, cfg=BR1, h=()): return dict(k="cb", id=id, cfg=cfg, h=list(h))
 
 def fn(d=0, r="R1", e=None, coop=False): return dict(d=d, r=r, e=leaf(e) if e else NIL, coop=coop)
-def start(x, at=0, asyn=False): return dict(at=at, what="Start", x=x, **{"async": asyn}, id="", gap=0)
-def env(what, at, x=0, id="", gap=0): return dict(at=at, what=what, x=x, **{"async": False}, id=id, gap=gap)
+def start(x, at=0, asyn=False, dl=-1): return dict(at=at, what="Start", x=x, **{"async": asyn}, id="", gap=0, dl=dl)
+def env(what, at, x=0, id="", gap=0): return dict(at=at, what=what, x=x, **{"async": False}, id=id, gap=gap, dl=-1)
 
 
 def scenario(stack, fns, envs, tld=0, async_fix=None, unit_ns=1_000_000, default=None, readers=False):
     nx = max([e["x"] for e in envs if e["what"] == "Start"] + [1])
     bhmax = {d["id"]: d["max"] for d in stack if d["k"] == "bh"}
+    # env("CtxDeadline", t, x): the context execution x is started with carries a deadline at instant t (no action of the controller)
+    dls = {e["x"]: e["at"] for e in envs if e["what"] == "CtxDeadline"}
+    envs = [dict(e, dl=dls[e["x"]]) if e["what"] == "Start" and e["x"] in dls else e for e in envs if e["what"] != "CtxDeadline"]
     envs = sorted(envs, key=lambda e: e["at"])
     return dict(stack=stack, fns=fns, fnDefault=default or fn(0, "R2"), env=envs, nx=nx, tld=tld,
                 asyncFix=ASYNC_FIX if async_fix is None else async_fix, bhmax=bhmax, unit_ns=unit_ns, readers=readers)
@@ -43,7 +46,7 @@ def run_and_validate(ctx, binary, name, scenarios, timeout=1800, env_extra=None,
     inp, outp = os.path.join(d, "scen.ndjson"), os.path.join(d, "trace.ndjson")
     with open(inp, "w") as fh:
         for i, s in enumerate(scenarios):
-            fh.write(json.dumps(dict(s, alt=i % 2)) + "\n")     # every other scenario builds its policies through the alternative builder spellings
+            fh.write(json.dumps(dict(s, alt=i % 4)) + "\n")     # every other scenario builds its policies through the alternative builder spellings
     r = vlib.run_harness(ctx, binary, "tscen", args={"in": inp, "out": outp}, timeout=timeout, env_extra=env_extra)
     recs, summ = vlib.harness_summary(ctx, r, "tscen")
     problems = [x for x in recs if x.get("k") == "problem"]
